@@ -247,7 +247,7 @@ def gen_prog(r, pid, services=False, scopes=False):
                     for _ in range(r.intn(4)):
                         aid += 1 + r.intn(2)
                         args.append((aid, "a%s%d" % (r.pick(WORDS).lower(), aid), arg_ty()))
-                    ret = None if (oneway or r.chance(25)) else arg_ty()
+                    ret = None if (oneway or r.chance(25)) else (Ty(r.pick(["s", "x"])) if r.chance(25) else arg_ty())
                     throws, tid = [], 0
                     if not oneway and excs:
                         # each exception type at most once per method: two throws entries of one type make the
